@@ -215,6 +215,16 @@ class C12(Check):
         from pox.datapaths.switch import DpPacketOut
         from pox.lib.packet.ethernet import ethernet
         self.swnet, self.of, self.EthAddr, self.IPAddr, self.DpPacketOut, self.ethernet = swnet, of, EthAddr, IPAddr, DpPacketOut, ethernet
+        # C13-4 (flow_mod pre-check of action types) is probed by behaviour, not by source shape: does a flow_mod whose actions include
+        # a type the switch has no handler for get installed?  (True = the unrepaired behaviour: installed silently)
+        if "c134" not in un:
+            try:
+                node = swnet.SwitchNode(dpid=1, ports=1)
+                st, rep, _ = node.send(of.ofp_flow_mod(command=of.OFPFC_ADD, match=of.ofp_match(in_port=1),
+                                                       actions=[of.ofp_action_vendor_generic(vendor=1, body=b"\0\0\0\0"), of.ofp_action_output(port=1)]))
+                self.variant["c134"] = len(node.sw.table) > 0
+            except Exception as e:
+                self.variant["c134"] = True; self.variant_notes.append("c134: probe failed (%s), unrepaired behaviour assumed" % type(e).__name__)
 
     def extra_evidence(self):
         return {"code_variant": {k: ("unrepaired" if v else "repaired") for k, v in self.variant.items()}, "variant_notes": self.variant_notes}
@@ -421,6 +431,10 @@ class C12(Check):
         if k == "setconfig":
             st["miss"], st["flags"] = op["miss"], op["flags"]; return [], cfg, None
         if k == "flow":
+            # with the C13-4 pre-check an action type the switch cannot carry out is refused: BAD_ACTION / BAD_TYPE, nothing installed;
+            # a tree without it installs the entry as it is (and stops at that action when the entry is used)
+            if any(a["a"] == "vendor" for a in op["acts"]) and not self.variant.get("c134", True):
+                return [{"k": "error", "type": 2, "code": 0}], cfg, None
             st["rules"].append(op); return [], cfg, None
         if k == "link":
             return [], [(n, c, (s | 1) if op["down"] else (s & ~1)) if n == op["port"] else (n, c, s) for n, c, s in cfg], None
